@@ -405,11 +405,20 @@ def map_mismatch(css, opts):
     req = [{'css': css, 'options': opts, 'source_map': True}]
     r = common.replay(['css'], stdin=json.dumps(req))
     out = json.loads(r.stdout)[0]
-    text = out.get('normal', '')
+    for which_map, which_text in (('map', 'normal'), ('low_map', 'low')):
+        why, text = _map_mismatch_one(css, out.get(which_map, []), out.get(which_text, ''), lenient=(which_map == 'low_map'))
+        if why:
+            return ('low-priority output: ' if which_map == 'low_map' else '') + why, text
+    return None, out.get('normal', '')
+
+
+def _map_mismatch_one(css, entries, text, lenient=False):
+    """lenient (low-priority output): the synthesized host selector is positioned at the rule's block, so only entries whose source token is
+    a word (copied declaration tokens) are compared with the text at their generated column"""
     u16 = text.encode('utf-16-le')
     src_lines = css.split('\n')
     prevc = -1
-    for (dl, dc, sl, sc, name) in out.get('map', []):
+    for (dl, dc, sl, sc, name) in entries:
         tail = u16[dc * 2:].decode('utf-16-le', errors='ignore')
         if dl != 0 or dc < prevc or dc * 2 > len(u16):
             return 'entry (%d,%d)<-(%d,%d) out of order / out of range' % (dl, dc, sl, sc), text
@@ -419,6 +428,8 @@ def map_mismatch(css, opts):
             stail = s16[sc * 2:].decode('utf-16-le', errors='ignore')
             if stail and tail:
                 a, b = stail[0], tail[0]
+                if lenient and not (a.isalnum() or a in '-_'):
+                    continue
                 same = a == b or (b in ')}]' and re.match(r'^([\[{(]|[-\w\\\u0080-\U0010ffff]+\()', stail)) or (a in '\'"' and b in '\'"') or (a.isspace() and b.isspace()) or a.lower() == b.lower()
                 renum = (a in '+-.0123456789' and b in '+-.0123456789')     # numbers may be re-spelled (+1 -> 1, .5 -> 0.5)
                 if not same and not renum and not a.isspace():
